@@ -214,6 +214,8 @@ def check_tables(exp: Expect, tables: list[dict]) -> list[tuple[str, str]]:
                 if "toks" in wc:
                     if _cell_tokens(gv) != wc["toks"]:
                         bad = (i, j, wc["toks"], gv)
+                    elif isinstance(gv, str) and T.glued_pairs(gv):
+                        out.append(("table-cell-glued", f"table {idx} cell ({i},{j}): pieces separated in the source are adjacent without white space: {gv!r}"))
                 elif "empty" in wc:
                     if _cell_tokens(gv):
                         bad = (i, j, "empty", gv)
